@@ -178,6 +178,21 @@ check('C15', 'DESIGN.md 4/C15',
       'callback and the listen iterator; a valid sentinel after every '
       'message must be delivered exactly once and in order.', TBP)
 
+check('C14', 'DESIGN.md 4/C14',
+      'differential testing: the same Hypothesis-generated scenario executed '
+      'against the threaded and the asyncio class, normalised traces '
+      'compared',
+      'Scenario families for servers, clients (incl. reconnection), pub/sub '
+      'clusters and the simple clients are run twice; frames per peer, '
+      'published messages, handler/callback invocations, results or '
+      'exception types and rooms after every step must be equal after '
+      'renaming ids by first appearance. Pure differential oracle: it is '
+      'the check that ties the two copies of every method together.',
+      'Both sides run on the same harness (inline / FIFO-joined background '
+      'handlers, virtual time on the asyncio side); a defect present '
+      'identically in both copies is invisible to this check (the '
+      'model-based checks cover that).')
+
 NOT_BUILT = {}
 
 
